@@ -308,6 +308,9 @@ type world struct {
 	caseID  int
 	idxDesc string
 	aux     []auxDoc
+	// some Int values of this case are extreme (near the ends of int64): ordering has to compare them without overflow;
+	// sums and averages over the field are not asked (they would overflow, which is not what is being looked at)
+	extreme bool
 }
 
 type gqlRes struct {
@@ -799,6 +802,9 @@ func (w *world) loadDocs(r *vc.Rng, ndocs int) {
 		m := map[string]any{"uid": int64(i)}
 		for _, f := range fieldNames {
 			v := genVal(r, f, 2)
+			if w.extreme && f == "age" && v.k == "i" && r.Chance(1, 2) {
+				v.i = []int64{9223372036854775807, -9223372036854775808, 9223372036854775806, -9223372036854775807, 4611686018427387904, -4611686018427387905}[r.Intn(6)]
+			}
 			d.fields[f] = v
 			switch v.k {
 			case "n":
@@ -955,6 +961,7 @@ func runCase(ctx context.Context, out *vc.Out, caseID int, seed uint64, tier str
 		w.twin = tw
 	}
 	out.Emit(fmt.Sprintf("case %d", caseID), "ok")
+	w.extreme = caseID%4 == 3
 	ndocs := r.Intn(25)
 	if tier == "thorough" {
 		ndocs = r.Intn(60)
@@ -1037,7 +1044,15 @@ func runCase(ctx context.Context, out *vc.Out, caseID int, seed uint64, tier str
 			nq = 80
 		}
 		for i := 0; i < nq; i++ {
-			w.run(genQuery(r))
+			q := genQuery(r)
+			if w.extreme {
+				if i%3 == 0 {
+					// ordering by the field that holds the extreme values
+					q.sel, q.order = "docs", []okey{{"age", r.Bool()}}
+				}
+				q.sel = strings.NewReplacer("sum:age", "max:age", "avg:age", "min:age").Replace(q.sel)
+			}
+			w.run(q)
 		}
 		// every operator once per indexed field (per field in plain mode), with null and non-null operands:
 		// the operators whose answer includes documents WITHOUT a value are the ones an index plan gets wrong
@@ -1060,12 +1075,15 @@ func runCase(ctx context.Context, out *vc.Out, caseID int, seed uint64, tier str
 			}
 		}
 		// several aggregates over one group in one request
-		for i := 0; i < 3; i++ {
+		for i := 0; i < 3 && !w.extreme; i++ {
 			a := []int64{-5, 0, 1, 2}[r.Intn(4)]
 			w.groupedPair(a, a+[]int64{2, 5, 7, 200}[r.Intn(4)])
 		}
 		// aggregates over several sources
 		for _, sel := range []string{"sum2:score:v", "sum2:age:w", "sum2:age:v", "avg2:score:v", "avg2:age:w"} {
+			if w.extreme && strings.Contains(sel, ":age:") {
+				continue
+			}
 			q := genQuery(r)
 			q.order, q.limit, q.offset = nil, 0, 0
 			q.sel = sel
